@@ -88,20 +88,21 @@ class Policy(object):
         if self.burst_left > 0:
             self.burst_left -= 1
             if self.burst_left == 0:
-                self.cool = self.rnd.randint(2, 2 * self.burst_max + 2)
+                self.cool = self.rnd.randint(2, 2 * min(self.burst_max, 20) + 2)
         elif self.cool > 0:
             self.cool -= 1
             return None
         elif self.rnd.random() < self.rate:
-            self.burst_left = self.rnd.randint(1, self.burst_max) - 1
+            self.burst_left = self.rnd.randint(max(1, self.burst_max // 2 if self.burst_max > 20 else 1), self.burst_max) - 1
             if self.burst_left == 0:
-                self.cool = self.rnd.randint(1, self.burst_max)
+                self.cool = self.rnd.randint(1, min(self.burst_max, 20))
         else:
             return None
         name = self.name
         if name == 'mix':
             name = self.rnd.choice(('collide', 'edge'))
-        if name == 'collide':
+        if name == 'collide' or site == 'pick_four_unique_nodes_quickly':
+            # for the recursive picker the boundary values 0 and k-1 are collisions too: one capped code path for both
             return self._collide(method, arg, size, site, st)
         return self._edge(method, arg, size, site, st)
 
@@ -112,6 +113,13 @@ class Policy(object):
             k = arg
             if site == 'pick_four_unique_nodes_quickly':
                 n = int(round(k ** 0.25))
+                # the picker is recursive: cap forced collisions at 30 in a row (depth 30 is legal and reachable; hundreds in a
+                # row would only manufacture a RecursionError with probability ~0.9**400)
+                self.pick4_run = getattr(self, 'pick4_run', 0) + 1
+                if self.pick4_run > 30 and n >= 4 and n ** 4 == k:
+                    self.pick4_run = 0
+                    d = rnd.sample(range(n), 4)  # end the run with four distinct nodes
+                    return d[0] + d[1] * n + d[2] * n ** 2 + d[3] * n ** 3
                 if n >= 4 and n ** 4 == k:
                     d = [rnd.randrange(n) for _ in range(4)]
                     x, y = rnd.sample(range(4), 2)
